@@ -290,6 +290,16 @@ partial def loop (h : IO.FS.Stream) (s : DS) : IO Unit := do
         | .pos q =>
           let ks := lsAll st q []
           IO.println s!"> ls ok {if ks.isEmpty then "-" else ",".intercalate ks}"; loop h s
+  | ["dumpat", c, p] =>
+    match world c.toNat! with
+    | none => IO.println "> bad-op"; loop h s
+    | some (_, d, st) =>
+      match (lookup realHash st d (optPath p)).bind st.get with
+      | none => IO.println "> dump !ref-nokey"
+      | some dn =>
+        if !dn.isset then IO.println "> dump !root-unset"
+        else IO.println s!"> dump {";".intercalate (dumpDir st dn.id p)}"
+      loop h s
   | ["dump", c] =>
     match world c.toNat! with
     | none => IO.println "> bad-op"; loop h s
@@ -306,7 +316,7 @@ partial def loop (h : IO.FS.Stream) (s : DS) : IO Unit := do
     match world c.toNat! with
     | none => IO.println "> bad-op"; loop h s
     | some (w, d, st) =>
-      let st' := openFd realHash st d s!"num:{100 + c.toNat!}" s.prov.toList
+      let st' := (if s.openst == "ok" then openFd else openFdFailed) realHash st d s!"num:{100 + c.toNat!}" s.prov.toList
       IO.println s!"> open {s.openst}"
       loop h { putW w st' with prov := #[], openst := "ok" }
   | [] => loop h s
